@@ -488,6 +488,16 @@ func init() {
 				}
 				emit("keypair", tlsOn, hx(am), hx(ah), hx(ap), hx(aq), hx(bm), hx(bh), hx(bp), hx(bq))
 			}
+			// length-prefix arithmetic: components whose lengths differ by a power of two, with the separator and the
+			// tail of one component moved into the next (collide iff a length prefix is truncated or wraps)
+			for _, k := range []int{256, 512, 4096, 65536} {
+				fill := strings.Repeat("x", k-1)
+				am, ah, ap, aq, ok1 := wire("GET", "/dl?"+fill+"|sig=1", "h")
+				bm, bh, bp, bq, ok2 := wire("GET", "/dl%7C"+fill+"?sig=1", "h")
+				if ok1 && ok2 {
+					emit("keypair", "0", hx(am), hx(ah), hx(ap), hx(aq), hx(bm), hx(bh), hx(bp), hx(bq))
+				}
+			}
 			// the two literal collisions of the unfixed tree
 			for _, pr := range [][2]string{{"/a%7Cb?c", "/a?b|c"}, {"/dir/", "/dir"}, {"/a/.", "/a/"}, {"/a/b/..", "/a/"}, {"/a/.", "/a"}} {
 				am, ah, ap, aq, _ := wire("GET", pr[0], "h")
